@@ -1693,7 +1693,7 @@ class Analyzer:
         ins[0] = st0
         visits = {}
         iters = [0]
-        limit = 80 * max(8, len(rpo))
+        limit = int(os.environ.get('VERIF_ABS_LIMIT', '80')) * max(8, len(rpo))
         edge = {}
         pred = body.pred
         back = set(body.back_edges)
@@ -1753,16 +1753,22 @@ class Analyzer:
                         if (bi, succ) in back or os.environ.get('VERIF_WIDEN_ALL'):
                             visits[succ] = visits.get(succ, 0) + 1
                             if visits[succ] > 2:
-                                j = old.widen(j, thresholds)
+                                j = old.widen(j, thresholds, strict=visits[succ] > 8)
                         # (growth that comes in over the loop's entry edge is the enclosing loop's business: it is widened at
                         # that loop's head, not here, where the old state may hold as a constant what is a relation now)
                         if self.debug_head is not None and succ == self.debug_head[0]:
                             self.debug_head[1](bi, old, new_in, j)
                         if not (j.leq(old) and old.leq(j)):
+                            if os.environ.get('VERIF_ABS_DEBUG') and iters[0] > limit - 60:
+                                print('ABSDBG head', bi, '->', succ, 'visits', visits.get(succ), 'iv-diff', {self.ts(k): (old.iv.get(k), j.iv.get(k)) for k in set(old.iv) | set(j.iv) if old.iv.get(k) != j.iv.get(k)},
+                                      'rel-diff', {(self.ts(k[0]), self.ts(k[1])): (old.rel.get(k), j.rel.get(k)) for k in set(old.rel) | set(j.rel) if old.rel.get(k) != j.rel.get(k)})
                             ins[succ] = j
                             work.add(succ)
                     else:
                         if not (new_in.leq(old) and old.leq(new_in)):
+                            if os.environ.get('VERIF_ABS_DEBUG') and iters[0] > limit - 60:
+                                print('ABSDBG plain', bi, '->', succ, 'iv-diff', {self.ts(k): (old.iv.get(k), new_in.iv.get(k)) for k in set(old.iv) | set(new_in.iv) if old.iv.get(k) != new_in.iv.get(k)},
+                                      'rel-diff', {(self.ts(k[0]), self.ts(k[1])): (old.rel.get(k), new_in.rel.get(k)) for k in set(old.rel) | set(new_in.rel) if old.rel.get(k) != new_in.rel.get(k)})
                             ins[succ] = new_in
                             work.add(succ)
 
